@@ -6,6 +6,7 @@ import (
 	"errors"
 	"fmt"
 	"reflect"
+	"sync/atomic"
 
 	"github.com/NethermindEth/juno/blockchain"
 	"github.com/NethermindEth/juno/core"
@@ -15,6 +16,10 @@ import (
 	"github.com/NethermindEth/juno/pruner"
 	"verif/harness/lib"
 )
+
+// nonEmptyEventAnswers counts event queries that returned at least one event (evidence that the
+// event comparison is not vacuous).
+var nonEmptyEventAnswers atomic.Int64
 
 // errClass maps an error of the code under test to the small enum the model speaks.
 func errClass(err error) string {
@@ -38,7 +43,8 @@ type blockCtx struct {
 	Hash     *felt.Felt
 	TxHashes []*felt.Felt
 	MsgHash  []*eth.Hash
-	OnChain  bool // N <= height of the chain
+	OnChain  bool   // N <= height of the chain
+	Head     uint64 // head of the node under test (upper end of event queries)
 }
 
 func ctxOf(b *lib.Bundle, n uint64) blockCtx {
@@ -168,6 +174,27 @@ func readerQueries() []realQuery {
 		}},
 		{"pruner.RequireRetained", "requireRetained", func(_ BC, raw R, c blockCtx) []qcall {
 			return one("", func() (any, error) { return nil, pruner.RequireRetained(raw, c.N) })
+		}},
+		{"EventFilter.Events", "eventsFrom", func(bc BC, _ R, c blockCtx) []qcall {
+			// every event of [N, head], no address / key filter, one chunk
+			return one(fmt.Sprintf("to%d", c.Head), func() (any, error) {
+				ef, err := bc.EventFilter(nil, nil, func() (blockchain.PreConfirmedReader, error) { return nil, nil })
+				if err != nil {
+					return nil, err
+				}
+				defer ef.Close()
+				if err := ef.SetRangeEndBlockByNumber(blockchain.EventFilterFrom, c.N); err != nil {
+					return nil, err
+				}
+				if err := ef.SetRangeEndBlockByNumber(blockchain.EventFilterTo, c.Head); err != nil {
+					return nil, err
+				}
+				evs, tok, err := ef.Events(nil, 1<<20)
+				if err == nil && len(evs) > 0 {
+					nonEmptyEventAnswers.Add(1)
+				}
+				return []any{evs, tok.String()}, err
+			})
 		}},
 	}
 }
